@@ -47,8 +47,9 @@ def FitProblem.knotScale (hs : List α) (P : FitProblem α) : FitProblem α :=
 
 /-- `finitediff · tril` (`calc_penalty`, `if (mono)`): `(r, c) ↦ Σ_{k ≥ c} finitediff[r, k]` -/
 def finiteDiffMono (t : Int → α) (order porder n : Nat) : Tab2 α :=
+  let D := finiteDiff t order porder n          -- built once (the compiled driver runs this definition)
   Tab2.ofFn (n - porder) n fun r c =>
-    sumTo n fun k => if c ≤ k then (finiteDiff t order porder n).get r k else A.zero
+    sumTo n fun k => if c ≤ k then D.get r k else A.zero
 
 /-- one entry under `cholmod_l_drop(tol, …)`: kept iff `|a| > tol` -/
 def dropEntry (tol a : α) : α := if A.lt tol a || A.lt tol (A.neg a) then a else A.zero
